@@ -27,7 +27,7 @@ def plan(tier, seed):
 
 def floors(tier):
     f = {"checked/%s" % a: 30 for a in ALGOS}
-    f.update({"values/last-error": 1500, "values/prefix": 1000, "values/callback": 300, "values/tol-stopped": 300})
+    f.update({"values/long-linesearch": 50, "values/last-error": 1500, "values/prefix": 1000, "values/callback": 300, "values/tol-stopped": 300})
     return f
 
 
@@ -71,6 +71,17 @@ def _run_case(case, ctx):
     which, opts = decomp.option_sets(rs, algo, order)
     seed = int(rs.randint(0, 2 ** 31 - 1))
     K = 10 if "linesearch" in which else 6
+    user_init = None
+    if algo in ("nn_parafac_hals", "parafac", "nn_parafac") and data["kind"] == "tensor" and rs.rand() < 0.3:
+        # warm start with some modes fixed (HALS may also fix the last mode), optionally with normalisation
+        shp_ = data["shape"]
+        nfix = int(rs.randint(1, len(shp_)))
+        fm = sorted(rs.choice(len(shp_) if algo == "nn_parafac_hals" else len(shp_) - 1, size=min(nfix, len(shp_) - 1), replace=False).tolist())
+        opts = dict(opts, fixed_modes=fm)
+        opts.pop("init", None)
+        pos = algo != "parafac"
+        user_init = (None, [(np.abs(rs.standard_normal((s_, rank))) + 0.1 if pos else rs.standard_normal((s_, rank))) for s_ in shp_])
+        which = which + "+fixed" + ("-last" if (len(shp_) - 1) in fm else "")
     desc = {"algo": algo, "data": data["cls"], "shape": data["shape"], "rank": rank, "options": which, "opts": {k: (sorted(v) if isinstance(v, set) else v) for k, v in opts.items()}}
     ctx.count("checked/%s" % algo)
     ctx.sample({"case": desc, "K": K}, 6)
@@ -82,7 +93,7 @@ def _run_case(case, ctx):
     tiny = 1e-100
     runs = {}
     for k in list(range(1, K + 1)):
-        r = decomp.run(algo, data, rank, k, dict(opts), seed, tol=tiny)
+        r = decomp.run(algo, data, rank, k, dict(opts), seed, tol=tiny, init=None if user_init is None else (None, [f.copy() for f in user_init[1]]))
         runs[k] = (decomp.snapshot(r["decomp"]), r["errors"])
     nonzero = False
     # (1) last reported value of run k == true error of the decomposition returned by run k
@@ -127,7 +138,7 @@ def _run_case(case, ctx):
     if nonzero or "lowrank" in data["cls"]:
         ctx.nontriv(desc)
     # (3) tolerance-stopped run
-    r = decomp.run(algo, data, rank, 40, dict(opts), seed, tol=1e-3)
+    r = decomp.run(algo, data, rank, 40, dict(opts), seed, tol=1e-3, init=None if user_init is None else (None, [f.copy() for f in user_init[1]]))
     if r["errors"]:
         ctx.count("values/tol-stopped")
         te, sc = decomp.true_error(algo, data, decomp.snapshot(r["decomp"]))
@@ -138,8 +149,19 @@ def _run_case(case, ctx):
             ctx.violation(key("last-error-tol-stopped"), "%s stopped by tol after %d values: last reported %.12g, true error of the returned decomposition %.12g" % (
                 algo, len(r["errors"]), float(r["errors"][-1]), te), {"desc": desc, "errors": [float(e) for e in r["errors"]]})
             return
+    # (3b) long line-search runs: rejected extrapolations typically appear after tens of sweeps
+    if "linesearch" in which and user_init is None:
+        for tolv, budget in ((1e-7, 90), (tiny, int(gen.choice(rs, [23, 37, 52, 71])))):
+            r = decomp.run(algo, data, rank, budget, dict(opts), seed, tol=tolv)
+            if r["errors"]:
+                ctx.count("values/long-linesearch")
+                te, sc = decomp.true_error(algo, data, decomp.snapshot(r["decomp"]))
+                if not all(np.isfinite(float(e)) for e in r["errors"]) or not sq_ok(r["errors"][-1], te, sc, eps, sq):
+                    ctx.violation(key("last-error-long-run"), "%s after %d reported values (budget %d, tol %g): last reported %.12g, true error of the returned decomposition %.12g" % (
+                        algo, len(r["errors"]), budget, tolv, float(r["errors"][-1]), te), {"desc": desc, "errors_tail": [float(e) for e in r["errors"][-6:]]})
+                    return
     # (4) callbacks
-    if algo in ("parafac", "randomised_parafac", "tr_als"):
+    if algo in ("parafac", "randomised_parafac", "tr_als") and user_init is None:
         rec = []
 
         def cb(dec, error=None):
